@@ -147,11 +147,35 @@ def _load(modname):
     return _MOD
 
 
+def guarded_run(mod, tape, o):
+    """run_one, except that an Exception raised *by the code under test* (innermost frame inside
+    <repo>/testtools, not in its tests) and not handled by the check is a violation, not a harness
+    error: every workload stays inside its property's domain, where testtools has no business raising.
+    Anything raised from a /verif frame (harness bugs, injected faults that escape) still propagates."""
+    try:
+        return mod.run_one(tape, o)
+    except Exception as e:
+        tb = e.__traceback__
+        while tb is not None and tb.tb_next is not None:
+            tb = tb.tb_next
+        fn = os.path.realpath(tb.tb_frame.f_code.co_filename) if tb is not None else ""
+        pkg = os.path.join(os.path.realpath(repo_root()), "testtools") + os.sep
+        if not fn.startswith(pkg) or fn.startswith(pkg + "tests" + os.sep):
+            raise
+        out = Outcome()
+        where = f"{os.path.basename(fn)}:{tb.tb_frame.f_code.co_name}"
+        out.violate("code-under-test-raised", f"{type(e).__name__}:{where}",
+                    "unhandled exception out of testtools on an in-domain workload:\n" + "".join(traceback.format_exception(e))[-1500:])
+        out.hhash = digest_of("code-under-test-raised", type(e).__name__, where)
+        out.sample = {"raised": repr(e), "where": where}
+        return out
+
+
 def _run_index(mod, seed, index, opts, want_sample=False):
     tape = Tape(seed=seed, prop=mod.ID, index=index)
     o = dict(opts)
     o["want_sample"] = want_sample
-    out = mod.run_one(tape, o)
+    out = guarded_run(mod, tape, o)
     return tape, out
 
 
@@ -215,7 +239,7 @@ def _fails_with(mod, streams, ident, opts):
     o = dict(opts)
     o["want_sample"] = False
     try:
-        out = mod.run_one(tape, o)
+        out = guarded_run(mod, tape, o)
     except BaseException:
         return None, None
     for v in out.violations:
@@ -382,7 +406,7 @@ def do_replay(mod, path, opts):
     o = dict(opts)
     o.update(data.get("opts") or {})
     o["want_sample"] = True
-    out = mod.run_one(tape, o)
+    out = guarded_run(mod, tape, o)
     print(f"replay property={mod.ID} file={path}")
     print("decoded case:")
     print(json.dumps(out.sample, indent=1, default=repr)[:20000])
@@ -678,7 +702,7 @@ def _write_replay(mod, args, opts, viol, rec, info):
     o["want_sample"] = True
     decoded, vdict = None, viol["v"]
     try:
-        out = mod.run_one(tape, o)
+        out = guarded_run(mod, tape, o)
         decoded = out.sample
         for v in out.violations:
             if (v.kind, v.key) == (viol["v"]["kind"], viol["v"]["key"]):
